@@ -130,7 +130,7 @@ func exprToCoq(e ast.Expr, rename map[string]string) string {
 		case token.QUO:
 			op = "/"
 		case token.SUB:
-			op = "-"
+			return "(wsub " + exprToCoq(x.X, rename) + " " + exprToCoq(x.Y, rename) + ")"
 		case token.REM:
 			op = "mod"
 		}
@@ -151,6 +151,27 @@ func findFunc(name string) *ast.FuncDecl {
 		}
 	}
 	die("function %s not found", name)
+	return nil
+}
+
+// findMethod returns the method <recv>.<name> (receiver type without the star).
+func findMethod(recv, name string) *ast.FuncDecl {
+	for _, f := range files {
+		for _, d := range f.Decls {
+			fd, ok := d.(*ast.FuncDecl)
+			if !ok || fd.Name.Name != name || fd.Recv == nil || len(fd.Recv.List) != 1 || fd.Body == nil {
+				continue
+			}
+			t := fd.Recv.List[0].Type
+			if st, ok := t.(*ast.StarExpr); ok {
+				t = st.X
+			}
+			if id, ok := t.(*ast.Ident); ok && id.Name == recv {
+				return fd
+			}
+		}
+	}
+	die("method %s.%s not found", recv, name)
 	return nil
 }
 
@@ -252,6 +273,7 @@ func main() {
 	var b strings.Builder
 	b.WriteString("(* GENERATED by tools/genconst from /repo — do not edit. *)\n")
 	b.WriteString("From Coq Require Import NArith List.\nImport ListNotations.\nLocal Open Scope N_scope.\n\n")
+	b.WriteString("(* Go's unsigned 64-bit subtraction (wraps) *)\nDefinition wsub (a b : N) : N := (a + 2 ^ 64 - b) mod 2 ^ 64.\n\n")
 	for _, n := range names {
 		v, ok := evalInt(constExpr[n], 0)
 		if !ok || v.Sign() < 0 {
@@ -284,5 +306,18 @@ func main() {
 	fmt.Fprintf(&b, "(* verifyindex.go VerifyIndex *)\nDefinition vi_batch (chunksNum n : N) : N := %s.\n", exprToCoq(findAssign(vi, "batch", 0), nil))
 	fmt.Fprintf(&b, "Definition vi_last (i batch : N) : N := %s.\n", exprToCoq(findAssign(vi, "last", 0), nil))
 	fmt.Fprintf(&b, "Definition vi_next (i batch : N) : N := %s.\n", exprToCoq(findAssign(vi, "i", 0), nil))
+	// --- C01: clone arithmetic of fileseed.go / nullseed.go ---
+	fc := findMethod("fileSeedSegment", "clone")
+	fparams := "(srcOffset srcLength dstOffset blocksize srcAlignStart srcAlignEnd dstAlignStart alignLength : N)"
+	b.WriteString("\n(* fileseed.go fileSeedSegment.clone *)\n")
+	for _, v := range []string{"srcAlignStart", "srcAlignEnd", "dstAlignStart", "alignLength", "dstAlignEnd"} {
+		fmt.Fprintf(&b, "Definition fsclone_%s %s : N := %s.\n", v, fparams, exprToCoq(findAssign(fc, v, 0), nil))
+	}
+	nc := findMethod("nullChunkSection", "clone")
+	nparams := "(offset length blocksize : N)"
+	b.WriteString("(* nullseed.go nullChunkSection.clone *)\n")
+	for _, v := range []string{"dstAlignStart", "dstAlignEnd"} {
+		fmt.Fprintf(&b, "Definition nsclone_%s %s : N := %s.\n", v, nparams, exprToCoq(findAssign(nc, v, 0), nil))
+	}
 	os.Stdout.WriteString(b.String())
 }
